@@ -15,6 +15,7 @@ E1 (progenum), mode 'nrt'.  Two exhaustive parts:
   (mc/oracles/numlaws.py), independent of the library.
 """
 
+import re
 import math
 import inspect
 import operator
@@ -34,6 +35,10 @@ CALL_BUDGET = 200000      # Python-level calls per case (non-termination guard)
 # alphabets and bounds per tier
 # ---------------------------------------------------------------------------
 
+# law arguments many ranges away from the bounds (still dyadic: exact)
+FAR_F = [-1000.5, -37.25, 37.25, 1000.5]
+FAR_I = [-1000, -37, 37, 1000]
+
 TIERS = {
     'quick': dict(
         A=[-3, -0.5, 0, 1, 2, 2.0, 2.5],
@@ -43,17 +48,23 @@ TIERS = {
         NAR_X=[0, 3],                  # rotations of the first operand (n-ary)
         LEN1=[3],                      # lengths when one operand is a sequence
         LEN2=[(3, 2), (2, 3)],         # lengths of two sequence operands
+        # further length pairs (equal lengths, whole multiples, length 1),
+        # enumerated over the start positions LEN2X_START of the alphabet
+        LEN2X=[(3, 1), (1, 3), (4, 2), (2, 2), (3, 3)],
+        LEN2X_START=[0, 4],
+        LEN1X=[1, 2],                  # same, one sequence operand
         LENN=[(3, 2), (2, 3)],         # n-ary: (first operand, arguments)
+        OPTVALS=['min', 'max', None],  # values of a string option (clip=)
         CROSS=False,                   # stream x pattern pairs
         FULLMASK=False,                # every {num, X, composed X} mask
         # kernels driven through the op-agnostic list algebra of utils.py
         UTL_BIN=['mod', 'min', 'round'], UTL_NAR=['clip', 'wrap', 'blend',
                                                   'linlin'],
-        XF=[k * 0.25 for k in range(-24, 25)],
-        XI=list(range(-6, 7)),
+        XF=[k * 0.25 for k in range(-24, 25)] + FAR_F,
+        XI=list(range(-6, 7)) + FAR_I,
         BOUNDS=[-2, -1, 0, 0.5, 1, 2, 3],
         QUANTA=[-2, -1, 0, 0.5, 1, 1.5, 2, 3],
-        label='alphabet 7 values, sequence lengths <= 3, law grid 62 x 7 x 7'),
+        label='alphabet 7 values, sequence lengths <= 4, law grid 70 x 7 x 7'),
     'thorough': dict(
         A=[-3, -0.5, 0, 0.25, 1, 1.0, 2, 2.5, 4],
         ARGS={1: [-3, -1, -0.5, 0, 0.25, 1, 2, 2.5, 4],
@@ -63,30 +74,42 @@ TIERS = {
         NAR_X=[1, 5],
         LEN1=[1, 2, 3, 4],
         LEN2=[(3, 2), (2, 3), (1, 3), (3, 1)],
+        LEN2X=[(4, 2), (2, 4), (2, 2), (3, 3), (5, 2), (1, 1)],
+        LEN2X_START=[0, 3, 6],
+        LEN1X=[5],
         LENN=[(3, 2), (2, 3), (2, 2)],
+        OPTVALS=['min', 'max', None, 'minmax'],
         CROSS=True,
         FULLMASK=True,
         UTL_BIN=None, UTL_NAR=None,    # all of them
-        XF=[k * 0.125 for k in range(-64, 65)],
-        XI=list(range(-8, 9)),
+        XF=[k * 0.125 for k in range(-64, 65)] + FAR_F,
+        XI=list(range(-8, 9)) + FAR_I,
         BOUNDS=[-2, -1.5, -1, 0, 0.5, 1, 1.5, 2, 2.0, 2.5, 3],
         QUANTA=[-2, -1, -0.5, 0, 0.25, 0.5, 1, 1.0, 1.5, 2, 2.5, 3],
-        label='quick space + alphabet 9 values, sequence lengths <= 4, '
-              'law grid 146 x 11 x 12'),
+        label='quick space + alphabet 9 values, sequence lengths <= 5, '
+              'law grid 154 x 11 x 12'),
 }
 
 FUNC = ['func', 'cfunc']
+# a plain Python function (no operator methods of its own): only ever the
+# right operand / an argument of a Function, or the left operand of the
+# reflected forms
+LAM = 'lam'
 STRM = ['rout', 'crout']
 PAT = ['pat', 'cpat']
 CL = ['clist', 'nclist', 'pclist']
-PL = ['list', 'tuple', 'nlist', 'ntuple']
+# 'xlist': ragged and deeper nesting at once ([[a, [b]], [c]])
+PL = ['list', 'tuple', 'nlist', 'ntuple', 'xlist']
+# the library's other AbstractSequence: a tuple with operator methods
+AP = ['aparam']
 OPD = ['opd', 'rest']
-LIFTED = FUNC + STRM + PAT + CL + OPD
+LIFTED = FUNC + STRM + PAT + CL + OPD + AP
 SCALAR = ['num'] + OPD
 FAMILY = {}
-for _f in (FUNC, STRM, PAT, CL, OPD):
+for _f in (FUNC, STRM, PAT, CL, OPD, AP):
     for _k in _f:
         FAMILY[_k] = _f
+POISON = 4099.5     # yielded by a stream operand that got the wrong inval
 COMPOSED = {'func': 'cfunc', 'rout': 'crout', 'pat': 'cpat'}
 
 ALIAS = {'bitnot': 'invert', 'bitand': 'and_', 'bitor': 'or_',
@@ -126,6 +149,10 @@ def env():
     E.bi, E.aob, E.utl, E.fn, E.stm, E.opd, E.main = \
         bi, aob, utl, fn, stm, opd, main
     E.Operand, E.Rest, E.ChannelList = opd.Operand, evt.Rest, ChannelList
+    E.arrayed_param = evt.arrayed_param
+    # True while the evaluation pass hands k to the k-th `next` as its input
+    # value: stream operands then yield POISON unless they receive it.
+    E.inval_mode = False
 
     import random
 
@@ -147,7 +174,12 @@ def env():
 
     @ptt.pattern
     def pvals(vals):
-        yield from vals
+        # the stream of a pattern gets its first value with `next`; every
+        # later input value arrives as the result of `yield`.
+        got = None
+        for k, v in enumerate(vals):
+            ok = k == 0 or not E.inval_mode or got == k
+            got = yield (v if ok else POISON)
     E.pvals = pvals
 
     # --- scbuiltin-decorated functions --------------------------------
@@ -167,6 +199,7 @@ def env():
                if inspect.isfunction(c.cell_contents)]
         sig = inspect.signature(raw[0]) if raw else inspect.signature(f)
         E.builtins[name] = (ar, f, sig)
+    E.sig_of = {v[1]: v[2] for v in E.builtins.values()}
 
     # --- operator methods of AbstractObject ---------------------------
     E.methods = {}        # name -> (arity, signature without self)
@@ -245,6 +278,16 @@ def nest(vals, inner=list):
     return [inner(vals)]
 
 
+def xnest(vals):
+    """Ragged and three levels deep."""
+    vals = list(vals)
+    if len(vals) >= 3:
+        return [[vals[0], [vals[1]]], [vals[2]]] + vals[3:]
+    if len(vals) == 2:
+        return [[vals[0]], [[vals[1]]]]
+    return [[[vals[0]]]]
+
+
 def build(E, kind, vals):
     if kind == 'num':
         return vals[0]
@@ -257,12 +300,16 @@ def build(E, kind, vals):
         return E.fn.Function(lambda k: tv[k % len(tv)])
     if kind == 'cfunc':
         return +build(E, 'func', vals)
+    if kind == LAM:
+        tv = tuple(vals)
+        return lambda k: tv[k % len(tv)]
     if kind == 'rout':
         tv = tuple(vals)
 
-        def gen():
-            for v in tv:
-                yield v
+        def gen(inval):
+            for k, v in enumerate(tv):
+                ok = not E.inval_mode or inval == k
+                inval = yield (v if ok else POISON)
         return E.stm.Routine(gen)
     if kind == 'crout':
         return +build(E, 'rout', vals)
@@ -284,27 +331,33 @@ def build(E, kind, vals):
         return nest(vals)
     if kind == 'ntuple':
         return nest(vals, tuple)
+    if kind == 'xlist':
+        return xnest(vals)
+    if kind == 'aparam':
+        return E.arrayed_param(vals)
     raise core.HarnessError(f'unknown operand kind {kind}')
 
 
 def denote(kind, vals):
     if kind in SCALAR:
         return ('const', vals[0])
-    if kind in FUNC or kind in STRM or kind in PAT:
+    if kind in FUNC or kind in STRM or kind in PAT or kind == LAM:
         return ('seq', list(vals))
-    if kind in ('clist', 'list', 'tuple'):
+    if kind in ('clist', 'list', 'tuple', 'aparam'):
         return ('list', list(vals))
     if kind in ('nclist', 'pclist', 'nlist', 'ntuple'):
         return ('list', nest(vals))
+    if kind == 'xlist':
+        return ('list', xnest(vals))
     raise core.HarnessError(f'unknown operand kind {kind}')
 
 
 def result_family(kinds):
-    if any(k in FUNC for k in kinds):
+    if any(k in FUNC or k == LAM for k in kinds):
         return 'func'
     if any(k in STRM or k in PAT for k in kinds):
         return 'strm'
-    if any(k in CL or k in PL for k in kinds):
+    if any(k in CL or k in PL or k in AP for k in kinds):
         return 'list'
     if any(k in OPD for k in kinds):
         return 'opd'
@@ -357,6 +410,9 @@ def _seed(E, n=20250925):
 
 def _invoke(E, case, objs):
     entry, op = case['e'], case['op']
+    if 'o' in case:
+        # string option (clip=...), positional after the numeric arguments
+        objs = list(objs) + [case['o']]
     if entry == 'bi':
         return E.builtins[op][1](*objs)
     if entry == 'meth':
@@ -391,40 +447,81 @@ def _defaults_tail(E, case, objs):
     else:
         return []
     tail = []
-    for p in params[len(objs) - 1:]:
+    for p in params[len(objs) - 1 + ('o' in case):]:
         if p.default is inspect.Parameter.empty:
             raise core.HarnessError(f'missing required argument in {case}')
         tail.append(p.default)
     return tail
 
 
+def _own_defaults(E, kern, ngiven):
+    """True when the numeric operator itself declares defaults for all the
+    parameters after the first `ngiven`: an omitted argument of the lifted
+    form then means the numeric operator's own default."""
+    sig = E.sig_of.get(kern)
+    if sig is None:
+        return False
+    rest = list(sig.parameters.values())[ngiven:]
+    return all(p.default is not inspect.Parameter.empty for p in rest)
+
+
 def _run_stream(E, res, limit):
+    """k-th value = `next` with input value k (the operands built by this
+    check yield POISON when the composed stream does not hand it on)."""
     out = []
+    E.inval_mode = True
     try:
-        st = E.stm.stream(res)
-    except Exception as e:
-        return [('raise', type(e).__name__)]
-    for _ in range(limit):
         try:
-            out.append(('ok', st.next()))
-        except E.stm.StopStream:
-            out.append(('stop',))
-            break
+            st = E.stm.stream(res)
         except Exception as e:
-            out.append(('raise', type(e).__name__))
-            break
+            return [('raise', type(e).__name__)]
+        for k in range(limit):
+            try:
+                out.append(('ok', st.next(k)))
+            except E.stm.StopStream:
+                out.append(('stop',))
+                break
+            except Exception as e:
+                out.append(('raise', type(e).__name__))
+                break
+    finally:
+        E.inval_mode = False
     return out
 
 
 def _run_embed(E, res, limit):
     out = []
+    E.inval_mode = True
     try:
-        g = E.stm.embed(res)
+        try:
+            g = E.stm.embed(res, 0)
+        except Exception as e:
+            return [('raise', type(e).__name__)]
+        for k in range(limit):
+            try:
+                out.append(('ok', next(g) if k == 0 else g.send(k)))
+            except StopIteration:
+                out.append(('stop',))
+                break
+            except Exception as e:
+                out.append(('raise', type(e).__name__))
+                break
+    finally:
+        E.inval_mode = False
+    return out
+
+
+def _run_iter(E, res, limit):
+    """Python's iterator protocol: iter(pattern), next(stream); no input
+    values."""
+    out = []
+    try:
+        it = iter(res)
     except Exception as e:
         return [('raise', type(e).__name__)]
     for _ in range(limit):
         try:
-            out.append(('ok', next(g)))
+            out.append(('ok', next(it)))
         except StopIteration:
             out.append(('stop',))
             break
@@ -432,6 +529,27 @@ def _run_embed(E, res, limit):
             out.append(('raise', type(e).__name__))
             break
     return out
+
+
+def _call_shapes(kinds):
+    """Evaluation passes of a composed function: (suffix, call shape)."""
+    out = [('', 'pos'), ('-reeval', 'pos'), ('-kwcall', 'kw')]
+    if LAM not in kinds:
+        # a Function ignores spare positional arguments (a plain Python
+        # function does not)
+        out.append(('-sparearg', 'spare'))
+    return out
+
+
+def _call_point(res, k, shape):
+    try:
+        if shape == 'kw':
+            return ('ok', res(k=k))
+        if shape == 'spare':
+            return ('ok', res(k, 'spare'))
+        return ('ok', res(k))
+    except Exception as e:
+        return ('raise', type(e).__name__)
 
 
 def observe(E, case, objs):
@@ -442,14 +560,31 @@ def observe(E, case, objs):
     the same points; every stream of a pattern starts from the beginning), so
     they are evaluated repeatedly and every pass must give the kernel result:
     state kept in the composed object between evaluations is a violation.
-    A composed *stream* is consumed by its evaluation: one pass."""
+    A composed *stream* is consumed by its evaluation: one pass.
+
+    Functions are called positionally (twice), with a keyword argument and
+    with a spare positional argument; streams get k as the input value of
+    their k-th `next` / `send` (operands yield POISON when it does not reach
+    them); a composed pattern is also run through `iter` / `next`."""
     fam = result_family(case['k'])
     npoints = 3
     ev = case.get('ev')
     if fam == 'func':
-        sufs = ['', '-reeval']
+        # a call shape is only used when every function operand accepts it
+        # on its own (what a Function does with keyword or spare arguments is
+        # not part of the lifting law): (f op g)(*a) = f(*a) op g(*a).
+        shapes = [(s, sh) for s, sh in _call_shapes(case['k'])
+                  if sh == 'pos' or all(
+                      _call_point(o, 0, sh)[0] == 'ok'
+                      for o in objs if callable(o))]
+        sufs = [s for s, sh in shapes]
     elif fam == 'strm' and ev == 'multi':
         sufs = ['', '-reeval', '-embed', '-embed-reeval']
+        # Python's iterator protocol, when every pattern operand supports it
+        # on its own
+        if all(_run_iter(E, o, 1)[0][0] != 'raise' for o in objs
+               if isinstance(o, E.aob.AbstractObject)):
+            sufs.append('-iter')
     elif fam == 'strm' and ev == 'embed':
         sufs = ['-embed']
     else:
@@ -463,14 +598,15 @@ def observe(E, case, objs):
         if not callable(res):
             o = ('ok', 'not-callable:' + type(res).__name__)
             return [(s, [o] * npoints) for s in sufs]
-        return [(s, [lr.apply(res, [k]) for k in range(npoints)])
-                for s in sufs]
+        return [(s, [_call_point(res, k, sh) for k in range(npoints)])
+                for s, sh in shapes]
     if fam == 'strm':
         limit = max(len(v) for v in case['v']) + 2
         passes = []
         for s in sufs:
             _seed(E)
-            run = _run_embed if 'embed' in s else _run_stream
+            run = _run_iter if s == '-iter' else (
+                _run_embed if 'embed' in s else _run_stream)
             passes.append((s, run(E, res, limit)))
         return passes
     if fam == 'list':
@@ -495,7 +631,7 @@ def expected(E, case, kern):
 
 
 def _kind_family(k):
-    if k in FUNC:
+    if k in FUNC or k == LAM:
         return 'func'
     if k in STRM:
         return 'strm'
@@ -503,7 +639,7 @@ def _kind_family(k):
         return 'pat'
     if k == 'pclist':
         return 'pclist'
-    if k in CL or k in PL:
+    if k in CL or k in PL or k in AP:
         return 'list'
     if k in OPD:
         return 'opd'
@@ -524,7 +660,12 @@ def lift_kind(case):
         if fam == 'pclist':
             fam = f"{case['e']}-pclist"
         k = f"lift-nar-{fam}-args[{','.join(args) or 'num'}]"
+        if 'o' in case:
+            k += '-option'
     return k
+
+
+_ADDRESS = re.compile(r' at 0x[0-9a-fA-F]+')
 
 
 def _jsonable(x):
@@ -534,7 +675,7 @@ def _jsonable(x):
         return x
     if isinstance(x, float) and math.isfinite(x):
         return x
-    return repr(x)
+    return _ADDRESS.sub('', repr(x))      # no memory addresses in results
 
 
 def check_lift(case):
@@ -557,10 +698,15 @@ def check_lift(case):
         exps = []
         draws0 = E.Rng.draws
         for i, kern in enumerate(kerns):
-            if tail and not (case['e'] == 'py' and kern is
-                             _py_function(case['op'])):
-                # omitted trailing arguments take the defaults of the public
-                # signature (Python's own protocol function keeps its own).
+            if 'o' in case:
+                kern = (lambda *a, _k=kern, _o=case['o']: _k(*a, _o))
+            elif tail and not (case['e'] == 'py' and kern is
+                               _py_function(case['op'])) and \
+                    not _own_defaults(E, kern, len(objs)):
+                # omitted trailing arguments: the numeric operator's own
+                # defaults where it declares them (the lifted form must mean
+                # the same), else the defaults of the public signature
+                # (Python's own protocol function keeps its own).
                 kern = (lambda *a, _k=kern: _k(*a, *tail))
             _seed(E)
             exps.append(expected(E, case, kern))
@@ -614,7 +760,8 @@ def _lawkind(law, symptom, *a):
     """Disagreement class of a law case.  An int x with a float bound or
     quantum is the one mixed combination with its own code path; it forms one
     class across the operators that share that path."""
-    if type(a[0]) is int and any(type(v) is float for v in a[1:]):
+    if type(a[0]) is int and any(type(v) is float for v in a[1:]) and \
+            '-range' not in law:
         return f'law-{symptom}-int-x-float-parameter'
     return f"law-{law}-{symptom}-{'int' if type(a[0]) is int else 'float'}"
 
@@ -642,19 +789,55 @@ def check_law(case):
     if law in ('wrap', 'fold'):
         x, lo, hi = case['x'], case['lo'], case['hi']
         decided = lo < hi if law == 'wrap' else lo <= hi
-        o = call(getattr(bi, law), x, lo, hi)
+        # 'rng': the optional precomputed range arguments, consistent with
+        # the bounds (1: range = hi - lo; 2: also range2 = 2 * range)
+        rng = case.get('rng', 0)
+        extra = [hi - lo, 2 * (hi - lo)][:rng]
+        name = law + ('-range' * rng)
+        o = call(getattr(bi, law), x, lo, hi, *extra)
         if decided:
             if o[0] == 'raise':
-                dis.append((_lawkind(law, 'raises', x, lo, hi),
+                dis.append((_lawkind(name, 'raises', x, lo, hi),
                             'a number inside the bounds', o[1], ''))
             else:
                 f = nl.wrap_law if law == 'wrap' else nl.fold_law
                 why = f(x, lo, hi, o[1])
                 if why:
-                    dis.append((_lawkind(law, 'outside-bounds', x, lo, hi),
+                    dis.append((_lawkind(name, 'outside-bounds', x, lo, hi),
                                 'inside the bounds', _jsonable(o[1]), why))
         nontrivial = decided and (x in (lo, hi) or _mixed(x, lo, hi))
+        return dis, nontrivial, [name, _jsonable(o)]
+    if law in ('wrap2', 'fold2'):
+        # bounds -b, b
+        x, b = case['x'], case['b']
+        decided = b > 0
+        o = call(getattr(bi, law), x, b)
+        if decided:
+            if o[0] == 'raise':
+                dis.append((_lawkind(law, 'raises', x, b),
+                            'a number inside the bounds', o[1], ''))
+            else:
+                f = nl.wrap_law if law == 'wrap2' else nl.fold_law
+                why = f(x, -b, b, o[1])
+                if why:
+                    dis.append((_lawkind(law, 'outside-bounds', x, b),
+                                'inside the bounds', _jsonable(o[1]), why))
+        nontrivial = decided and (x in (-b, b) or _mixed(x, b))
         return dis, nontrivial, [law, _jsonable(o)]
+    if law == 'clip2':
+        x, b = case['x'], case['b']
+        o1 = call(bi.clip2, x, b)
+        o2 = call(bi.clip2, o1[1], b) if o1[0] == 'ok' else o1
+        if o1[0] == 'raise' or o2[0] == 'raise':
+            dis.append((_lawkind('clip2', 'raises', x, b), 'a number',
+                        [o1, o2], ''))
+        else:
+            why = nl.idempotent_law(o1[1], o2[1])
+            if why:
+                dis.append((_lawkind('clip2', 'not-idempotent', x, b),
+                            _jsonable(o1[1]), _jsonable(o2[1]), why))
+        nontrivial = x in (-b, b) or _mixed(x, b)
+        return dis, nontrivial, [law, _jsonable(o1)]
     if law == 'clip':
         x, lo, hi = case['x'], case['lo'], case['hi']
         o1 = call(bi.clip, x, lo, hi)
@@ -671,7 +854,15 @@ def check_law(case):
         return dis, nontrivial, [law, _jsonable(o1)]
     if law in ('round', 'roundup', 'trunc'):
         x, q = case['x'], case['q']
-        o = call(getattr(bi, law), x, q)
+        if q is None:
+            # quantum omitted: the declared default of the operator
+            q = list(E.builtins[law][2].parameters.values())[1].default
+            if type(q) not in (int, float):
+                raise core.HarnessError(f'{law}: no numeric default quantum')
+            o = call(getattr(bi, law), x)
+            law = law + '-default'
+        else:
+            o = call(getattr(bi, law), x, q)
         if q != 0:
             if o[0] == 'raise':
                 dis.append((_lawkind(law, 'raises', x, q),
@@ -685,7 +876,7 @@ def check_law(case):
                 else:
                     side = {'round': nl.round_side_law,
                             'roundup': nl.roundup_side_law,
-                            'trunc': nl.trunc_side_law}[law]
+                            'trunc': nl.trunc_side_law}[case['law']]
                     why = side(x, q, o[1])
                     if why:
                         dis.append((_lawkind(law, 'wrong-side', x, q),
@@ -749,7 +940,11 @@ def _right_kinds(left, T):
         if left == 'pclist':
             out = ['num', 'clist']
         return out
+    if left in AP:
+        return ['num', 'aparam', 'list', 'nlist']
     out = ['num'] + list(FAMILY[left])
+    if left == 'func':
+        out += [LAM]
     if T['CROSS']:
         if left in STRM:
             out += ['pat']
@@ -763,7 +958,11 @@ def _left_plain_kinds(right):
     forms)."""
     out = ['num']
     if right in ('clist', 'nclist'):
-        out += ['list', 'tuple', 'nlist']
+        out += ['list', 'tuple', 'nlist', 'xlist']
+    if right in AP:
+        out += ['list']
+    if right == 'func':
+        out += [LAM]
     return out
 
 
@@ -806,7 +1005,7 @@ def _arg_masks(first, nargs, T):
         return [[]]
     if first == 'pclist':
         return [['num'] * nargs]
-    if first in PL:
+    if first in PL or first in AP:
         alts = ['list']
     elif first in CL:
         alts = ['clist', 'list']
@@ -827,11 +1026,31 @@ def _arg_masks(first, nargs, T):
                 m = ['num'] * nargs
                 m[p] = alts[0]
                 masks.append(m)
+    if first == 'func':
+        masks.append([LAM] * nargs)
+        if nargs >= 2:
+            masks.append([LAM] + ['num'] * (nargs - 1))
     out = []
     for m in masks:
         if m not in out:
             out.append(m)
     return out
+
+
+def _string_option(params):
+    """Name of the string-valued option that directly follows the numeric
+    parameters (clip='minmax'), or None."""
+    req, opt = _numeric_params(params)
+    pos = [p for p in params
+           if p.kind in (p.POSITIONAL_OR_KEYWORD, p.POSITIONAL_ONLY)]
+    n = len(req) + len(opt)
+    if n < len(pos) and isinstance(pos[n].default, str):
+        return pos[n].name
+    return None
+
+
+def _class_of(E, kind):
+    return type(build(E, kind, [0, 0, 0]))
 
 
 def groups(tier):
@@ -859,6 +1078,14 @@ def groups(tier):
     for law in ('wrap', 'fold', 'clip', 'round', 'roundup', 'trunc', 'mod'):
         for xs in ('XF', 'XI'):
             out.append(dict(p='law', law=law, xs=xs))
+    for xs in ('XF', 'XI'):
+        out.append(dict(p='law', law='wrap', xs=xs, rng=1))
+        out.append(dict(p='law', law='fold', xs=xs, rng=1))
+        out.append(dict(p='law', law='fold', xs=xs, rng=2))
+        for law in ('wrap2', 'fold2', 'clip2'):
+            out.append(dict(p='law', law=law, xs=xs))
+        for law in ('round', 'roundup', 'trunc'):
+            out.append(dict(p='law', law=law, xs=xs, q=None))
     for f, g in INVERSES:
         out.append(dict(p='law', law='inv', f=f, g=g))
         out.append(dict(p='law', law='inv', f=g, g=f))
@@ -910,6 +1137,10 @@ def groups(tier):
         for r in LIFTED:
             for l in _left_plain_kinds(r):
                 lift('bin', 'bi', name, [l, r])
+        if list(sig.parameters.values())[1].default is not \
+                inspect.Parameter.empty:
+            for l in LIFTED:
+                lift('bin', 'bi', name, [l])        # default argument
         if T['UTL_BIN'] is not None and name not in T['UTL_BIN']:
             continue
         for l in SEQS:
@@ -934,7 +1165,8 @@ def groups(tier):
         if not resolved(entry, name):
             continue
         req, opt = _numeric_params(params)
-        for nargs in sorted({len(req), len(req) + len(opt)}):
+        counts = sorted({len(req), len(req) + len(opt)})
+        for nargs in counts:
             for first in LIFTED:
                 for m in _arg_masks(first, nargs, T):
                     lift('nar', entry, name, [first] + m)
@@ -943,6 +1175,34 @@ def groups(tier):
                 for first in PL + CL:
                     for m in _arg_masks(first, nargs, T):
                         lift('nar', 'utl', 'bi.' + name, [first] + m)
+        if entry == 'meth':
+            # a class may re-declare the method with further defaults
+            # (ChannelList.clip(lo=0.0, hi=1.0)): its own argument counts
+            for first in LIFTED:
+                f = getattr(_class_of(E, first), name, None)
+                if f is None or f is getattr(E.aob.AbstractObject, name):
+                    continue
+                own = list(inspect.signature(f).parameters.values())[1:]
+                oreq, oopt = _numeric_params(own)
+                for nargs in sorted({len(oreq), len(oreq) + len(oopt)}):
+                    if nargs not in counts:
+                        lift('nar', entry, name, [first] + ['num'] * nargs)
+        # the string option, passed positionally after all numeric arguments
+        if _string_option(params):
+            nargs = len(req) + len(opt)
+            for first in LIFTED:
+                masks = [['num'] * nargs]
+                # (list arguments of list_narop: open known finding, not
+                # repeated with options)
+                if first != 'pclist' and not (
+                        (first in CL and entry != 'meth') or first in AP):
+                    alt = _arg_masks(first, nargs, T)[1]
+                    masks.append(alt)
+                if first == 'pclist' and entry == 'meth':
+                    continue      # open known finding, not repeated
+                for m in masks:
+                    for o in T['OPTVALS']:
+                        lift('nar', entry, name, [first] + m, o=o)
     return out
 
 
@@ -965,8 +1225,18 @@ def cases_of(g, tier):
             for x in xs:
                 for lo in T['BOUNDS']:
                     for hi in T['BOUNDS']:
-                        yield {'p': 'law', 'law': law, 'x': x, 'lo': lo,
-                               'hi': hi}
+                        c = {'p': 'law', 'law': law, 'x': x, 'lo': lo,
+                             'hi': hi}
+                        if g.get('rng'):
+                            c['rng'] = g['rng']
+                        yield c
+        elif law in ('wrap2', 'fold2', 'clip2'):
+            for x in xs:
+                for b in T['BOUNDS']:
+                    yield {'p': 'law', 'law': law, 'x': x, 'b': b}
+        elif 'q' in g:
+            for x in xs:
+                yield {'p': 'law', 'law': law, 'x': x, 'q': None}
         elif law == 'mod':
             for a in xs:
                 for b in T['BOUNDS']:
@@ -984,6 +1254,8 @@ def cases_of(g, tier):
     base = {'p': 'lift', 'a': g['a'], 'e': g['e'], 'op': g['op'], 'k': kinds}
     if g.get('ev'):
         base['ev'] = g['ev']
+    if 'o' in g:
+        base['o'] = g['o']
 
     def lens_variants(nseq):
         if nseq == 0:
@@ -1003,13 +1275,34 @@ def cases_of(g, tier):
                 c = dict(base)
                 c['v'] = vals
                 yield c
+        if len(seqpos) in (1, 2):
+            # further lengths over fewer start positions
+            more = T['LEN2X'] if len(seqpos) == 2 else \
+                [(l,) for l in T['LEN1X']]
+            done = lens_variants(len(seqpos))
+            for lens in more:
+                if lens in done:
+                    continue
+                lmap = dict(zip(seqpos, lens))
+                for idx in itertools.product(T['LEN2X_START'], repeat=n):
+                    vals = [_rot(A, idx[i], lmap.get(i, 1))
+                            for i in range(n)]
+                    c = dict(base)
+                    c['v'] = vals
+                    yield c
         return
     # n-ary: first operand rotates over A at the NAR_X offsets, arguments
     # take every tuple of the argument alphabet.
     B = T['ARGS'].get(n - 1, T['ARGS'][6])
-    for lens in lens_variants(len(seqpos)):
+    lvs, x0s = lens_variants(len(seqpos)), T['NAR_X']
+    if 'o' in g:
+        # option groups: one rotation of the first operand (the one that
+        # starts inside the alphabet, so that values fall below, between and
+        # above the argument values), one length variant
+        lvs, x0s = lvs[:1], x0s[-1:]
+    for lens in lvs:
         lmap = dict(zip(seqpos, lens))
-        for x0 in T['NAR_X']:
+        for x0 in x0s:
             for idx in itertools.product(range(len(B)), repeat=n - 1):
                 vals = [_rot(A, x0 % len(A), lmap.get(0, 1))]
                 for i in range(1, n):
@@ -1033,7 +1326,8 @@ def plan(tier):
         return [(g, [tier]) for g in gs]
 
     def key(g):
-        return (g['a'], g['e'], g['op'], tuple(g['k']), g['ev'])
+        return (g['a'], g['e'], g['op'], tuple(g['k']), g['ev'],
+                repr(g.get('o', '-')))
     quick = {key(g): g for g in groups('quick') if g['p'] == 'lift'}
     groups(tier)            # restore the unresolved list of this tier
     out = []
@@ -1088,7 +1382,7 @@ def introspect(job):
                     for a in ('un', 'bin', 'nar')},
         'groups': len(gs),
         'ops_by_entry': {e: len(s) for e, s in sorted(ops.items())},
-        'signatures': len({(g['e'], tuple(g['k']), g.get('ev'))
+        'signatures': len({(g['e'], tuple(g['k']), g.get('ev'), 'o' in g)
                            for g in gs if g['p'] == 'lift'}),
         'unresolved': sorted(set(E.unresolved)),
     }
@@ -1108,21 +1402,48 @@ from sc3.base import builtins as bi, utils as utl
 from sc3.base.functions import Function
 from sc3.base.stream import Routine, stream, embed
 from sc3.base.operand import Operand
-from sc3.seq.event import Rest
+from sc3.seq.event import Rest, arrayed_param
 from sc3.seq.pattern import pattern
 from sc3.synth.ugen import ChannelList
 
+POISON = 4099.5    # a stream operand that did not get k as its k-th input
+INVAL = [True]     # False while evaluating without input values
+
 @pattern
 def pvals(vals):
-    yield from vals
+    got = None
+    for k, v in enumerate(vals):
+        got = yield (v if k == 0 or not INVAL[0] or got == k else POISON)
 
 def rout(vals):
-    def gen():
-        yield from vals
+    def gen(inval):
+        for k, v in enumerate(vals):
+            inval = yield (v if not INVAL[0] or inval == k else POISON)
     return Routine(gen)
 
 def func(vals):
     return Function(lambda k: vals[k % len(vals)])
+
+def lam(vals):
+    return lambda k: vals[k % len(vals)]
+
+def nexts(st, n=8):     # k-th next gets the input value k
+    out = []
+    try:
+        for k in range(n):
+            out.append(st.next(k))
+    except StopIteration:
+        pass
+    return out
+
+def sends(g, n=8):
+    out = []
+    try:
+        for k in range(n):
+            out.append(next(g) if k == 0 else g.send(k))
+    except StopIteration:
+        pass
+    return out
 
 """
 
@@ -1133,7 +1454,7 @@ def _operand_src(kind, vals):
         return repr(v[0])
     if kind in ('opd', 'rest'):
         return f"{'Operand' if kind == 'opd' else 'Rest'}({v[0]!r})"
-    if kind in ('func', 'rout'):
+    if kind in ('func', 'rout', 'lam'):
         return f'{kind}({v!r})'
     if kind in ('cfunc', 'crout'):
         return f'+{kind[1:]}({v!r})'
@@ -1156,6 +1477,10 @@ def _operand_src(kind, vals):
         return repr(tuple(v))
     if kind == 'nlist':
         return repr(nest(v))
+    if kind == 'xlist':
+        return repr(xnest(v))
+    if kind == 'aparam':
+        return f'arrayed_param({v!r})'
     return repr(nest(v, tuple))
 
 
@@ -1170,12 +1495,21 @@ def standalone(case, exp=None):
                            f"print(bi.{case['g']}(bi.{case['f']}(x)), "
                            f"'should be', x)\n")
         if law in ('wrap', 'fold', 'clip'):
-            return head + (f"print(bi.{law}({case['x']!r}, {case['lo']!r}, "
-                           f"{case['hi']!r}))\n")
+            lo, hi = case['lo'], case['hi']
+            extra = ''.join(f', {v!r}' for v in
+                            [hi - lo, 2 * (hi - lo)][:case.get('rng', 0)])
+            return head + (f"print(bi.{law}({case['x']!r}, {lo!r}, "
+                           f"{hi!r}{extra}))\n")
+        if law in ('wrap2', 'fold2', 'clip2'):
+            return head + f"print(bi.{law}({case['x']!r}, {case['b']!r}))\n"
+        if case.get('q', 0) is None:
+            return head + f"print(bi.{law}({case['x']!r}))\n"
         if law == 'mod':
             return head + f"print(bi.mod({case['a']!r}, {case['b']!r}))\n"
         return head + f"print(bi.{law}({case['x']!r}, {case['q']!r}))\n"
     args = [_operand_src(k, v) for k, v in zip(case['k'], case['v'])]
+    if 'o' in case:
+        args.append(repr(case['o']))
     e, op = case['e'], case['op']
     if e == 'bi':
         call = f"bi.{op}({', '.join(args)})"
@@ -1196,16 +1530,22 @@ def standalone(case, exp=None):
     fam = result_family(case['k'])
     if fam == 'func':
         show = ('print([res(k) for k in range(3)])\n'
-                'print([res(k) for k in range(3)], "(same again)")')
+                'print([res(k) for k in range(3)], "(same again)")\n'
+                'print([res(k=k) for k in range(3)], "(same again)")')
+        if LAM not in case['k']:
+            show += ('\nprint([res(k, "spare") for k in range(3)], '
+                     '"(same again)")')
     elif fam == 'strm' and case.get('ev') == 'multi':
-        show = ('print(list(stream(res)))\n'
-                'print(list(stream(res)), "(same again)")\n'
-                'print(list(embed(res)), "(same again)")\n'
-                'print(list(embed(res)), "(same again)")')
+        show = ('print(nexts(stream(res)))\n'
+                'print(nexts(stream(res)), "(same again)")\n'
+                'print(sends(embed(res, 0)), "(same again)")\n'
+                'print(sends(embed(res, 0)), "(same again)")\n'
+                'INVAL[0] = False\n'
+                'print(list(iter(res)), "(same again)")')
     elif fam == 'strm' and case.get('ev') == 'embed':
-        show = 'print(list(embed(res)))'
+        show = 'print(sends(embed(res, 0)))'
     elif fam == 'strm':
-        show = 'print(list(stream(res)))'
+        show = 'print(nexts(stream(res)))'
     else:
         show = 'print(res)'
     tail = f'# expected outcomes: {exp!r}\n' if exp is not None else ''
@@ -1226,8 +1566,16 @@ def chanlist_plain_inner_nary_method(v):
             v.get('observed') == [['raise', 'AttributeError']])
 
 
+def fold_range_without_range2(v):
+    """fold called with the optional `range` but without `range2`."""
+    c = v['case']
+    return (c['p'] == 'law' and c['law'] == 'fold' and c.get('rng') == 1 and
+            v.get('observed') == 'TypeError')
+
+
 PREDICATES = {
     'chanlist_plain_inner_nary_method': chanlist_plain_inner_nary_method,
+    'fold_range_without_range2': fold_range_without_range2,
 }
 
 
@@ -1239,10 +1587,19 @@ def main(ctx):
         'operand-kind signature x every tuple of start values of the '
         'alphabet (sequence operands are rotations of the alphabet, so every '
         'value pair meets at some evaluation point) x the listed length '
-        'pairs; every composed function is called twice at each of 3 points '
+        'pairs (LEN2X pairs over the start positions LEN2X_START only); '
+        'operand kinds include plain Python functions next to a Function, '
+        'ragged three-level lists and arrayed_param; binary builtins and '
+        'n-ary methods also with their declared default arguments omitted; '
+        'the n-ary operators that take a string option (clip=) x every '
+        'option value; every composed function is called twice at each of 3 '
+        'points, then with a keyword and with a spare positional argument, '
         'and every composed pattern is evaluated on the same object as a '
-        'stream twice and through embedding twice (state kept between '
-        'evaluations is a violation); numeric laws over the full grid. A '
+        'stream twice, through embedding twice and through iter/next (state '
+        'kept between evaluations is a violation); streams receive k as the '
+        'input value of the k-th next; numeric laws over the full grid, '
+        'wrap/fold also with the optional range arguments, wrap2/fold2/clip2 '
+        'with bounds -b, b, round/roundup/trunc also without quantum. A '
         'lifting case is '
         'non-trivial when at some evaluation point the operands mix int and '
         'float, two sequence operands have different lengths (wrap-around / '
@@ -1255,7 +1612,13 @@ def main(ctx):
         'evaluated plain numbers (mc/oracles/lift_ref.py gives point-wise, '
         'zip-until-shortest and element-wise-with-wrap semantics); where '
         'Python\'s and the library\'s numeric operator of the same name '
-        'differ (%, **, round, trunc, bitnot) either is accepted',
+        'differ (%, **, round, trunc, bitnot) either is accepted; an omitted '
+        'argument means the numeric operator\'s own default where it declares '
+        'one, else the default of the method signature',
+        'input values, keyword and spare arguments are only used in forms '
+        'that every operand accepts on its own; n-ary operators with a plain '
+        'number first and lifted arguments have no reflected hook in the '
+        'library and are not enumerated (not decided by the statement)',
         'kernels that draw random numbers are detected by counting draws of '
         'the library\'s main generator (a counting random.Random installed '
         'as main._m_rgen); for them only structure and exceptions are '
@@ -1278,13 +1641,17 @@ def main(ctx):
     ctx.extra['kind_signatures'] = info['signatures']
     ctx.extra['groups_total'] = info['groups']
     ctx.bounds['alphabets'] = {k: T[k] for k in
-                               ('A', 'ARGS', 'NAR_X', 'LEN1', 'LEN2', 'LENN',
+                               ('A', 'ARGS', 'NAR_X', 'LEN1', 'LEN1X', 'LEN2',
+                                'LEN2X', 'LEN2X_START', 'LENN', 'OPTVALS',
                                 'BOUNDS', 'QUANTA')}
     ctx.bounds['alphabets']['ARGS'] = {str(k): v
                                        for k, v in T['ARGS'].items()}
-    ctx.bounds['law_grid'] = {'x_float': [T['XF'][0], T['XF'][-1],
-                                          len(T['XF'])],
-                              'x_int': [T['XI'][0], T['XI'][-1]]}
+    ctx.bounds['law_grid'] = {'x_float': [T['XF'][0],
+                                          T['XF'][-1 - len(FAR_F)],
+                                          len(T['XF']) - len(FAR_F)],
+                              'x_int': [T['XI'][0],
+                                        T['XI'][-1 - len(FAR_I)]],
+                              'x_far': FAR_F + FAR_I}
     jobs = [{'shard': i, 'of': NSHARDS, 'tier': ctx.tier}
             for i in range(NSHARDS)]
     progenum.run(ctx, MODNAME, 'work', jobs, mode='nrt', bound=T['label'])
